@@ -163,6 +163,15 @@ MUTS = {
                 setattr_(*field)
                 break
 """)],
+ # the coordinator's seeded regression /verif/seeded/C16-v2: ArgsNamespace.__hash__ keyed on
+ # type(self) instead of the associated render class (subclass instances hash differently)
+ "nshash_by_type": [(T, """        return hash(
+            (
+                type(self)._RENDER_CLS,
+                tuple([getattr(self, field) for field in type(self)._FIELDS]),
+            )
+        )""", """        cls = type(self)
+        return hash((cls, tuple([getattr(self, field) for field in cls._FIELDS])))""")],
  "nshash_no_cls": [(T, """        return hash(
             (
                 type(self)._RENDER_CLS,
